@@ -1675,9 +1675,9 @@ func rulePXTokenRender(c *Ctx, part string) []Obligation {
 	}
 	fn := fname(f)
 	reg := c.registerFn()
-	paths, trunc := c.Paths(f, PXConfig{SkipErrEdges: true, Opaque: c.stdOpaque()})
+	paths, trunc, why := c.tokenRenderPaths(f)
 	if trunc || len(paths) == 0 {
-		o.undecided(fn, "path enumeration", f.Pos(), "%d paths, truncated %v", len(paths), trunc)
+		o.undecided(fn, "path enumeration", f.Pos(), "%d paths, truncated %v %s", len(paths), trunc, why)
 		return o.list
 	}
 	t := newTally(o, fn, f.Pos())
@@ -3062,9 +3062,10 @@ func rulePXRegister(c *Ctx) []Obligation {
 	imp, hints := "recv."+c.ff("imports"), "recv."+c.ff("hints")
 	nameF, aliasF := c.ff("defname"), c.ff("defalias")
 	opq := map[*ssa.Function]bool{guess: true}
-	if inlined {
-		opq[resv] = true
-	} else {
+	// the reserved-word predicate stays opaque in both modes: a registration function may consult the
+	// validity predicate for its first candidate and test later ones itself
+	opq[resv] = true
+	if !inlined {
 		opq[valid] = true
 	}
 	paths, trunc := c.Paths(reg, PXConfig{MaxVisits: 4, MaxDepth: 4, MaxPaths: 200000, Opaque: func(f *ssa.Function) bool { return opq[f] }})
@@ -3183,6 +3184,13 @@ func rulePXRegister(c *Ctx) []Obligation {
 			var whyV string
 			okChecked, whyV = c.validAtStore(p, F, name.String(), imp, nameF)
 			lv = "<validity inlined: " + whyV + ">"
+		} else if !okChecked {
+			// the predicate vouched for another candidate: the stored one may have been tested in place
+			if ok2, why2 := c.validAtStore(p, F, name.String(), imp, nameF); ok2 {
+				okChecked = true
+			} else {
+				lv += " <and tested in place: " + why2 + ">"
+			}
 		}
 		t.note("the name stored is the very name that passed the validity test", okChecked, "path %s stores %s but the last accepted candidate was %s: uniqueness / legality was established for a different string (e.g. prefix applied afterwards)", traceOf(p), name, lv)
 		t.note("the name returned is the name stored", ret.String() == name.String(), "path %s returns %s but stores %s", traceOf(p), ret, name)
@@ -3785,4 +3793,88 @@ func factsLenConsistent(F Facts) bool {
 		}
 	}
 	return true
+}
+
+// tokenRenderPaths: the success paths of the token renderer. The renderer may dispatch on the
+// literal's dynamic type without a type switch (a table keyed by reflect.Type): no path then knows
+// the type, and the case split is made here — one enumeration per documented type, assumed at
+// entry, and one for "none of them".
+func (c *Ctx) tokenRenderPaths(f *ssa.Function) ([]*PXPath, bool, string) {
+	type res struct {
+		paths []*PXPath
+		trunc bool
+		why   string
+	}
+	if v, ok := c.extra("tokenRenderPaths"); ok {
+		r := v.(res)
+		return r.paths, r.trunc, r.why
+	}
+	out := res{}
+	defer func() { c.setExtra("tokenRenderPaths", out) }()
+	paths, trunc := c.Paths(f, PXConfig{SkipErrEdges: true, Opaque: c.stdOpaque()})
+	if trunc || len(paths) == 0 {
+		out = res{paths, trunc, ""}
+		return out.paths, out.trunc, out.why
+	}
+	knowsType := false
+	for _, p := range paths {
+		for atom := range p.Facts {
+			if strings.HasPrefix(atom, "is<") && strings.HasSuffix(atom, ">(recv.content)") {
+				knowsType = true
+			}
+		}
+	}
+	if !knowsType {
+		var all []*PXPath
+		cases := append(append([]string{}, documentedLitTypes...), "")
+		for _, dt := range cases {
+			var as []Lit
+			for _, other := range documentedLitTypes {
+				as = append(as, Lit{"is<" + other + ">(recv.content)", other == dt})
+			}
+			ps, tr := c.Paths(f, PXConfig{SkipErrEdges: true, Opaque: c.stdOpaque(), Assume: as})
+			if tr {
+				out = res{ps, true, fmt.Sprintf("(case %q)", dt)}
+				return out.paths, out.trunc, out.why
+			}
+			all = append(all, ps...)
+		}
+		paths = all
+	}
+	out = res{paths, false, ""}
+	return out.paths, out.trunc, out.why
+}
+
+// litPanicOnPaths: the panic at pos is reached, on the paths of the token renderer, only for a
+// literal whose type is none of the documented ones (and is reached for such a literal).
+func (c *Ctx) litPanicOnPaths(pos token.Pos) bool {
+	f := c.implOf(c.renderName(), "jen.token")
+	if f == nil {
+		return false
+	}
+	paths, trunc, _ := c.tokenRenderPaths(f)
+	if trunc {
+		return false
+	}
+	reached := false
+	for _, p := range paths {
+		if p.End != "panic" || len(p.Events) == 0 {
+			continue
+		}
+		pe := p.Events[len(p.Events)-1]
+		if pe.In == nil || pe.In.Pos() != pos {
+			continue
+		}
+		refuted := 0
+		for _, dt := range documentedLitTypes {
+			if p.Facts.Has("is<"+dt+">(recv.content)", false) {
+				refuted++
+			}
+		}
+		if refuted != len(documentedLitTypes) {
+			return false
+		}
+		reached = true
+	}
+	return reached
 }
